@@ -921,6 +921,89 @@ emit("s2", coroutine.status(inner), tryresume(inner), tryresume(outer))`)
 	return
 }
 
+// coPayloadSizes: every payload size arrives complete and in order in both directions (resume arguments -> body
+// parameters / results of yield; yielded and returned values -> results of resume), for sizes around the registry's
+// initial size and growth steps, under a fixed registry and under growing ones (the receiving thread's registry may
+// have to grow in the middle of the transfer).  "" when that holds.
+func coPayloadSizes() (why string) {
+	defer func() {
+		if r := recover(); r != nil {
+			why = fmt.Sprint("go panic: ", r)
+		}
+	}()
+	const src = `
+local function mk(n) local t = {} for i = 1, n do t[i] = i * 3 end return t end
+local function same(t, from, n) for i = 1, n do if t[from + i - 1] ~= i * 3 then return false end end return true end
+for _, n in ipairs(SIZES) do
+  for _, wrapped in ipairs({false, true}) do
+    local body = function(...)
+      local a = {...}
+      local y = {coroutine.yield(...)}
+      return select("#", ...), #y, same(a, 1, #a), same(y, 1, #y), unpack(y)
+    end
+    local r1, r2
+    if wrapped then
+      local f = coroutine.wrap(body)
+      r1 = {true, f(unpack(mk(n)))}
+      r2 = {true, f(unpack(mk(n)))}
+    else
+      local co = coroutine.create(body)
+      r1 = {coroutine.resume(co, unpack(mk(n)))}
+      r2 = {coroutine.resume(co, unpack(mk(n)))}
+    end
+    emit(n, wrapped, r1[1], #r1, same(r1, 2, n), r2[1], #r2, r2[2], r2[3], r2[4], r2[5], same(r2, 6, n))
+  end
+end`
+	sizes := []int{0, 1, 2, 50, 100, 120, 126, 127, 128, 129, 130, 160, 200, 255, 256, 257, 300}
+	run := func(opt lua.Options) (string, error) {
+		L := lua.NewState(opt)
+		defer L.Close()
+		tb := L.NewTable()
+		for _, n := range sizes {
+			tb.Append(lua.LNumber(n))
+		}
+		L.SetGlobal("SIZES", tb)
+		var tr []string
+		L.SetGlobal("emit", L.NewFunction(func(S *lua.LState) int {
+			var parts []string
+			for i := 1; i <= S.GetTop(); i++ {
+				parts = append(parts, S.Get(i).String())
+			}
+			tr = append(tr, strings.Join(parts, ","))
+			return 0
+		}))
+		err := L.DoString(src)
+		return strings.Join(tr, "|"), err
+	}
+	var want []string
+	for _, n := range sizes {
+		for _, w := range []string{"false", "true"} {
+			want = append(want, fmt.Sprintf("%d,%s,true,%d,true,true,%d,%d,%d,true,true,true", n, w, n+1, n+5, n, n))
+		}
+	}
+	opts := []lua.Options{{}, {RegistrySize: 128, RegistryMaxSize: 4096, RegistryGrowStep: 1}, {RegistrySize: 128, RegistryMaxSize: 4096, RegistryGrowStep: 32},
+		{RegistrySize: 128, RegistryMaxSize: 100000, RegistryGrowStep: 100}, {RegistrySize: 256, RegistryMaxSize: 2048, RegistryGrowStep: 7}, {RegistrySize: 4096}}
+	for _, o := range opts {
+		got, err := run(o)
+		if err != nil {
+			return fmt.Sprintf("options %+v: the script failed: %v", o, err)
+		}
+		if got != strings.Join(want, "|") {
+			g := strings.Split(got, "|")
+			for i := range want {
+				if i >= len(g) || g[i] != want[i] {
+					have := "<missing>"
+					if i < len(g) {
+						have = g[i]
+					}
+					return fmt.Sprintf("options {RegistrySize:%d RegistryMaxSize:%d RegistryGrowStep:%d}: got %s expected %s", o.RegistrySize, o.RegistryMaxSize, o.RegistryGrowStep, have, want[i])
+				}
+			}
+		}
+	}
+	return ""
+}
+
 func coCanary() string {
 	cmd := exec.Command(os.Args[0])
 	cmd.Env = append(os.Environ(), "C06M_CANARY=1", "GOMAXPROCS=2")
@@ -957,6 +1040,12 @@ func runC06M(run *Run) {
 		line := "X resume-of-normal-coroutine " + strings.ReplaceAll(why, " ", "_") + " => A=create(resume(B));B=create(resume(A));resume(A)"
 		run.Failures = append(run.Failures, Failure{CaseIdx: -9000, Kind: "CRASH", Line: line, Reply: line, Lines: []string{line}})
 		run.Extra["canary"] = why
+		return
+	}
+	if why := coPayloadSizes(); why != "" {
+		line := "X payload-transfer " + strings.ReplaceAll(why, " ", "_") + " => resume/yield/return payloads of 0..300 values under fixed and growing registries"
+		run.Failures = append(run.Failures, Failure{CaseIdx: -9003, Kind: "CRASH", Line: line, Reply: line, Lines: []string{line}})
+		run.Extra["payload_sizes"] = why
 		return
 	}
 	if why := coAPIRefusals(); why != "" {
